@@ -83,7 +83,7 @@ func profileByName(name string) Profile {
 		p.PSoft, p.PFault, p.MaxScopes, p.PLateScope, p.PMidInvoke, p.PInvalid = 0, 0, 5, 0.5, 0.4, 0
 		p.PDefer = 0.3
 		p.PBackEdge = 0.04
-	case "large", "largefaults", "largerejects", "largeinfo", "largeviz", "largegraph", "largegraphfaults":
+	case "large", "largefaults", "largerejects", "largeinfo", "largeviz", "largegraph", "largegraphfaults", "largeenc":
 		// sizes the other profiles never reach (batch l): 20-45 constructors, scope chains up to 12 deep, 8-16
 		// results / parameters / flatten elements in a quarter of the functions, 8-20 Invokes, many names
 		p.Big = true
@@ -101,6 +101,12 @@ func profileByName(name string) Profile {
 			p.PBackEdge, p.PInvalid, p.PDup, p.PDefer = 0.12, 0.1, 0.2, 0.3
 		case "largeinfo":
 			p.PInfo, p.PAs, p.PVariadic = 0.9, 0.2, 0.3
+		case "largeenc":
+			// C15 pairs: no soft groups (what a soft group holds depends on where it stands among the
+			// parameters, which is exactly what the encodings change; profile enc does the same)
+			// ... except here: soft groups stay, what they receive is masked in the comparison, and there are no
+			// decorators (a soft parameter of a decorated group runs the decorator, early or late)
+			p.PSoft, p.PViaOpt, p.PVariadic, p.PDecorate = 0.25, 0.3, 0.2, 0
 		case "largeviz":
 			p.PVisualize, p.PFault, p.InvokeFaults = 0.4, 0.15, true
 		case "largegraph", "largegraphfaults":
@@ -309,7 +315,7 @@ func largeJobs(prop, tier string) []JobSpec {
 	case "C13", "C20":
 		return []JobSpec{{"hist:largefaults", n}, {"hist:bigshape", nb}}
 	case "C15":
-		return []JobSpec{{"diff:c15big", n}}
+		return []JobSpec{{"diff:c15big", n * 10 / 3}}
 	case "C16":
 		return []JobSpec{{"diff:c16big", n}, {"diff:c16graph", ng}}
 	case "C17":
